@@ -1,6 +1,6 @@
 (** The arithmetic parser of brush: the generic [precedence!] interpreter instantiated with the
     regenerated table. *)
-From BV Require Import Base.Prelude Arith.Ast Arith.Lit Arith.PegPrec gen.ArithTable.
+From BV Require Import Base.Prelude Arith.Ast Arith.Lit Arith.PegPrec gen.C07ArithTable.
 
 Definition arith_parse_full (s : str) : pres aexpr := parse_full arith_lex arith_table s.
 (** [brush_parser::arithmetic::parse] ([Err] = [None]) *)
